@@ -178,9 +178,9 @@ Qed.
 (* registry: "{}" held as a blob does not answer for a config typed as a manifest (other namespace) *)
 Lemma ex_registry_namespace :
   stored KNamespace [mkEntry MediaTypeEmptyJSON empty_json_digest 2 empty_json []]
-         (mkDesc MediaTypeImageManifest empty_json_digest 2 [] [] []) = false /\
+         (mkDesc MediaTypeImageManifest empty_json_digest 2 [] [] no_extra) = false /\
   stored KDigest [mkEntry MediaTypeEmptyJSON empty_json_digest 2 empty_json []]
-         (mkDesc MediaTypeImageManifest empty_json_digest 2 [] [] []) = true.
+         (mkDesc MediaTypeImageManifest empty_json_digest 2 [] [] no_extra) = true.
 Proof. vm_compute. split; reflexivity. Qed.
 
 (* a fault plan: the third storage operation (the manifest push) fails after the config was stored *)
